@@ -83,7 +83,7 @@ deriving Repr
 
 inductive Res (α : Type) where
   | ok (a : α) | err | panic
-deriving Repr
+deriving Repr, DecidableEq
 
 /-- the clamp of `refreshDifficulty`: `actual` limited to `[expected/4, expected*4]` (Go int division) -/
 def clampSpan (expected actual : Int) : Int :=
@@ -167,6 +167,102 @@ def checkMinerMatch (c : Cfg) (chain : Array Blk) (b : Cand) : Verdict :=
     | .ok tb =>
       if tb ≠ bits then .reject else
       match b.parent.bind (fun i => chain[i]?) with
+      | none => .reject
+      | some pre =>
+        if b.ts < pre.ts then .reject else
+        if !isProofed c.bitcoin c.maxDiff b.hash tb then .reject else
+        if !b.keyOk then .reject else
+        if b.sigOk then .accept else .reject
+
+/-! ### ledgers with side branches
+
+The ledger is a block *tree*: every stored block names its parent by hash.  `refreshDifficulty` and
+`CheckMinerMatch` reach the ancestors of a candidate with `QueryBlock(GetPreHash())` only, never by
+height, so the model walks parent pointers and has no notion of "main chain" at all. -/
+
+/-- a stored block of a ledger with branches: `par` = index of the block its pre-hash names (`none`: the
+ledger does not have it).  Blocks are listed parents first, a pointer that does not point backwards is
+treated as unknown. -/
+structure TBlk where
+  bits : Option Nat
+  ts : Int
+  par : Option Nat
+deriving Repr
+
+def TBlk.blk (b : TBlk) : Blk := ⟨b.bits, b.ts⟩
+
+/-- `Ledger.QueryBlock(block.GetPreHash())` as an index -/
+def parentOf (t : Array TBlk) (i : Nat) : Option Nat :=
+  match t[i]? with
+  | none => none
+  | some b =>
+    match b.par with
+    | none => none
+    | some p => if p < i then some p else none
+
+/-- `k` times `QueryBlock(GetPreHash())` starting from block `i` -/
+def walkUp (t : Array TBlk) : Nat → Nat → Option Nat
+  | i, 0 => some i
+  | i, k + 1 => (parentOf t i).bind (fun p => walkUp t p k)
+
+/-- the arithmetic of the retarget step once `preBlock` (target bits `prevBits`) and `farBlock` are found -/
+def retarget (c : Cfg) (prevBits : Nat) (pre far : Blk) : Res Nat :=
+  let expected := c.expectedPeriod * (c.gap - 1)
+  let actual := clampSpan expected (Int.tdiv (pre.ts - far.ts) 1000000000)
+  if c.bitcoin then
+    if expected = 0 then .panic else
+    let d := scaleTarget (target prevBits) actual expected
+    if d < (c.maxDiff : Int) then .ok c.maxTarget else
+    match getCompact d.toNat with
+    | (_, false) => .ok prevBits
+    | (nb, true) => .ok nb
+  else
+    if actual = 0 then .panic else
+    let d := ((2 ^ prevBits : Nat) : Int) * expected / actual
+    let nb : Int := (bitLen d.natAbs : Int) - 1
+    let nb := (nb % 4294967296).toNat
+    .ok (if nb > c.maxTarget then c.maxTarget else nb)
+
+/-- `refreshDifficulty` given what the two look-ups found: `pre` = the block before the one named by
+`tipHash` (`none`: one of the two `QueryBlock`s failed), `far` = the block `gap - 1` parents further up. -/
+def refreshWith (c : Cfg) (nextHeight : Int) (pre far : Option Blk) : Res Nat :=
+  if c.gap = 0 then .panic else
+  if nextHeight ≤ c.gap then .ok c.defaultTarget else
+  match pre with
+  | none => .ok c.defaultTarget
+  | some pre =>
+    match pre.bits with
+    | none => .err
+    | some prevBits =>
+      if Int.tmod nextHeight c.gap ≠ 0 then .ok prevBits else
+      match far with
+      | none => .ok c.defaultTarget
+      | some far => retarget c prevBits pre far
+
+/-- block `k` parents above block `i` of the tree -/
+def blockUp (t : Array TBlk) (i k : Nat) : Option Blk :=
+  (walkUp t i k).bind (fun j => t[j]?.map TBlk.blk)
+
+/-- `refreshDifficulty(tipHash, nextHeight)` on a ledger with branches (`tip` = index of the block named
+by `tipHash`) -/
+def refreshDifficultyT (c : Cfg) (t : Array TBlk) (tip : Option Nat) (nextHeight : Int) : Res Nat :=
+  match tip.bind (fun i => t[i]?.map (fun _ => i)) with
+  | none => refreshWith c nextHeight none none
+  | some ti => refreshWith c nextHeight (blockUp t ti 1) (blockUp t ti (1 + (c.gap - 1).toNat))
+
+/-- `PoWConsensus.CheckMinerMatch` on a ledger with branches -/
+def checkMinerMatchT (c : Cfg) (t : Array TBlk) (b : Cand) : Verdict :=
+  match b.bits with
+  | none => .reject
+  | some bits =>
+    if !isProofed c.bitcoin c.maxDiff b.hash bits then .reject else
+    if !b.idOk then .reject else
+    match refreshDifficultyT c t b.parent b.height with
+    | .panic => .panic
+    | .err => .reject
+    | .ok tb =>
+      if tb ≠ bits then .reject else
+      match b.parent.bind (fun i => t[i]?) with
       | none => .reject
       | some pre =>
         if b.ts < pre.ts then .reject else
